@@ -13,6 +13,16 @@ open SMGo
 
 set_option maxRecDepth 100000
 
+/-- entry `i` of a table given as `(List.range n).map f` -/
+theorem getD_map_range (f : Nat → Nat) (n i : Nat) (hi : i < n) : ((List.range n).map f).getD i 0 = f i := by
+  simp [List.getD_eq_getElem?_getD, List.getElem?_range hi]
+
+theorem map_range_congr {α : Type} (f g : Nat → α) (n : Nat) (h : ∀ x, x < n → f x = g x) :
+    (List.range n).map f = (List.range n).map g := by
+  apply List.map_congr_left
+  intro x hx
+  exact h x (List.mem_range.mp hx)
+
 /-! ### C18: S-box -/
 
 /-- the generated S-box table is the algebraic S-box of the specification -/
@@ -22,63 +32,89 @@ theorem sbox_alg : Gen.SM4Const.sbox = (List.range 256).map Spec.SM4.sboxAlg := 
 theorem sbox_length : Gen.SM4Const.sbox.length = 256 := by
   decide +kernel
 
-theorem sboxAlg_lt : ∀ x, x < 256 → Spec.SM4.sboxAlg x < 256 := by
-  decide +kernel
-
 /-- entry-wise form of `sbox_alg` -/
 theorem sbox_getD (x : Nat) (hx : x < 256) : Gen.SM4Const.sbox.getD x 0 = Spec.SM4.sboxAlg x := by
-  rw [sbox_alg, List.getD_eq_getElem?_getD, List.getElem?_map, List.getElem?_range hx]
-  rfl
+  rw [sbox_alg, getD_map_range _ _ _ hx]
 
-/-- the S-box is injective on 0..255 (hence, with `sboxAlg_lt`, a permutation of the bytes) -/
-theorem sboxAlg_injective : ∀ x, x < 256 → ∀ y, y < 256 → Spec.SM4.sboxAlg x = Spec.SM4.sboxAlg y → x = y := by
+theorem sbox_entries_lt : ∀ x, x < 256 → Gen.SM4Const.sbox.getD x 0 < 256 := by
   decide +kernel
 
-/-- the S-box is surjective on 0..255 -/
-theorem sboxAlg_surjective : ∀ y, y < 256 → ∃ x, x < 256 ∧ Spec.SM4.sboxAlg x = y := by
+theorem sboxAlg_lt (x : Nat) (hx : x < 256) : Spec.SM4.sboxAlg x < 256 := by
+  rw [← sbox_getD x hx]; exact sbox_entries_lt x hx
+
+/-- position of every table entry: the table has no repeated entry -/
+theorem sbox_idxOf_getD : ∀ x, x < 256 → Gen.SM4Const.sbox.idxOf (Gen.SM4Const.sbox.getD x 0) = x := by
   decide +kernel
+
+/-- every byte value occurs in the table -/
+theorem sbox_getD_idxOf : ∀ y, y < 256 →
+    Gen.SM4Const.sbox.idxOf y < 256 ∧ Gen.SM4Const.sbox.getD (Gen.SM4Const.sbox.idxOf y) 0 = y := by
+  decide +kernel
+
+/-- the S-box is injective on 0..255 -/
+theorem sboxAlg_injective (x y : Nat) (hx : x < 256) (hy : y < 256)
+    (h : Spec.SM4.sboxAlg x = Spec.SM4.sboxAlg y) : x = y := by
+  rw [← sbox_getD x hx, ← sbox_getD y hy] at h
+  rw [← sbox_idxOf_getD x hx, ← sbox_idxOf_getD y hy, h]
+
+/-- the S-box is surjective on 0..255; with `sboxAlg_lt` and `sboxAlg_injective`: a permutation of the bytes -/
+theorem sboxAlg_surjective (y : Nat) (hy : y < 256) : ∃ x, x < 256 ∧ Spec.SM4.sboxAlg x = y := by
+  obtain ⟨h1, h2⟩ := sbox_getD_idxOf y hy
+  exact ⟨_, h1, by rw [← sbox_getD _ h1, h2]⟩
 
 /-! ### C18: T-tables -/
 
-/-- entry `x` of T-table `i`: L applied to the S-box output placed in byte `i` (big-endian) -/
-def ttEntry (i : Nat) (x : Nat) : Nat :=
-  (Spec.SM4.L (BitVec.ofNat 32 (Spec.SM4.sboxAlg x) <<< (24 - 8 * i))).toNat
+/- The four checks run over the generated S-box table (fast); `sbox_alg` then replaces the table by the
+   algebraic S-box. -/
 
+theorem ttable_0_tbl : Gen.SM4Const.s0 = (List.range 256).map
+    (fun x => (Spec.SM4.L (BitVec.ofNat 32 (Gen.SM4Const.sbox.getD x 0) <<< 24)).toNat) := by
+  decide +kernel
+
+theorem ttable_1_tbl : Gen.SM4Const.s1 = (List.range 256).map
+    (fun x => (Spec.SM4.L (BitVec.ofNat 32 (Gen.SM4Const.sbox.getD x 0) <<< 16)).toNat) := by
+  decide +kernel
+
+theorem ttable_2_tbl : Gen.SM4Const.s2 = (List.range 256).map
+    (fun x => (Spec.SM4.L (BitVec.ofNat 32 (Gen.SM4Const.sbox.getD x 0) <<< 8)).toNat) := by
+  decide +kernel
+
+theorem ttable_3_tbl : Gen.SM4Const.s3 = (List.range 256).map
+    (fun x => (Spec.SM4.L (BitVec.ofNat 32 (Gen.SM4Const.sbox.getD x 0) <<< 0)).toNat) := by
+  decide +kernel
+
+/-- T-table 0: L applied to the S-box output placed in the most significant byte -/
 theorem ttable_0 : Gen.SM4Const.s0 =
     (List.range 256).map (fun x => (Spec.SM4.L (BitVec.ofNat 32 (Spec.SM4.sboxAlg x) <<< 24)).toNat) := by
-  decide +kernel
+  rw [ttable_0_tbl]; apply map_range_congr; intro x hx; rw [sbox_getD x hx]
 
 theorem ttable_1 : Gen.SM4Const.s1 =
     (List.range 256).map (fun x => (Spec.SM4.L (BitVec.ofNat 32 (Spec.SM4.sboxAlg x) <<< 16)).toNat) := by
-  decide +kernel
+  rw [ttable_1_tbl]; apply map_range_congr; intro x hx; rw [sbox_getD x hx]
 
 theorem ttable_2 : Gen.SM4Const.s2 =
     (List.range 256).map (fun x => (Spec.SM4.L (BitVec.ofNat 32 (Spec.SM4.sboxAlg x) <<< 8)).toNat) := by
-  decide +kernel
+  rw [ttable_2_tbl]; apply map_range_congr; intro x hx; rw [sbox_getD x hx]
 
 theorem ttable_3 : Gen.SM4Const.s3 =
     (List.range 256).map (fun x => (Spec.SM4.L (BitVec.ofNat 32 (Spec.SM4.sboxAlg x) <<< 0)).toNat) := by
-  decide +kernel
+  rw [ttable_3_tbl]; apply map_range_congr; intro x hx; rw [sbox_getD x hx]
 
 theorem s0_getD (x : Nat) (hx : x < 256) :
     Gen.SM4Const.s0.getD x 0 = (Spec.SM4.L (BitVec.ofNat 32 (Spec.SM4.sboxAlg x) <<< 24)).toNat := by
-  rw [ttable_0, List.getD_eq_getElem?_getD, List.getElem?_map, List.getElem?_range hx]
-  rfl
+  rw [ttable_0, getD_map_range _ _ _ hx]
 
 theorem s1_getD (x : Nat) (hx : x < 256) :
     Gen.SM4Const.s1.getD x 0 = (Spec.SM4.L (BitVec.ofNat 32 (Spec.SM4.sboxAlg x) <<< 16)).toNat := by
-  rw [ttable_1, List.getD_eq_getElem?_getD, List.getElem?_map, List.getElem?_range hx]
-  rfl
+  rw [ttable_1, getD_map_range _ _ _ hx]
 
 theorem s2_getD (x : Nat) (hx : x < 256) :
     Gen.SM4Const.s2.getD x 0 = (Spec.SM4.L (BitVec.ofNat 32 (Spec.SM4.sboxAlg x) <<< 8)).toNat := by
-  rw [ttable_2, List.getD_eq_getElem?_getD, List.getElem?_map, List.getElem?_range hx]
-  rfl
+  rw [ttable_2, getD_map_range _ _ _ hx]
 
 theorem s3_getD (x : Nat) (hx : x < 256) :
     Gen.SM4Const.s3.getD x 0 = (Spec.SM4.L (BitVec.ofNat 32 (Spec.SM4.sboxAlg x) <<< 0)).toNat := by
-  rw [ttable_3, List.getD_eq_getElem?_getD, List.getElem?_map, List.getElem?_range hx]
-  rfl
+  rw [ttable_3, getD_map_range _ _ _ hx]
 
 /-! ### C18: key-schedule constants -/
 
@@ -86,7 +122,7 @@ theorem ck_formula : Gen.SM4Const.ck = (List.range 32).map (fun i => (Spec.SM4.C
   decide +kernel
 
 theorem ck_getD (i : Nat) (hi : i < 32) : BitVec.ofNat 32 (Gen.SM4Const.ck.getD i 0) = Spec.SM4.CK i := by
-  rw [ck_formula, List.getD_eq_getElem?_getD, List.getElem?_map, List.getElem?_range hi]
+  rw [ck_formula, getD_map_range _ _ _ hi]
   simp
 
 theorem fk_eq :
